@@ -17,8 +17,10 @@ func dayNumber(y, m, d int) int {
 }
 
 type hfield struct {
-	Name  string
-	Value string // unfolded as RFC 5322 says (CRLF before WSP removed)
+	Name   string
+	Value  string      // unfolded as RFC 5322 says (CRLF before WSP removed)
+	ValueG string      // the other reading of "unfolded": every physical line trimmed, lines joined by one space
+	Cross  [][2]string // for every fold: the token before it and the token after it
 }
 
 type message struct {
@@ -90,24 +92,79 @@ func genItems(rng *common.Rng, n int) []string {
 	return it
 }
 
-// foldItems lays the items out on one or more physical lines. Returns (raw value incl. folds, unfolded value).
-func foldItems(rng *common.Rng, items []string, sep string) (string, string) {
+// layout puts the tokens of a field body on one or more physical lines: between two tokens a single space or a fold
+// (CRLF followed by SP / HTAB / several of them); sometimes the first fold comes directly after the colon.
+// Returns the raw text that follows "Name:" (without the final CRLF), the unfolded value and the token pairs around the folds.
+func layout(rng *common.Rng, tokens []string, mayFoldAfterColon bool) (string, string, [][2]string) {
 	var raw, unf strings.Builder
-	for i, it := range items {
+	var cross [][2]string
+	foldWSP := func() string {
+		if rng.Chance(0.6) {
+			return " "
+		}
+		return []string{"\t", "  ", " \t", "\t "}[rng.Pick(4)]
+	}
+	if mayFoldAfterColon && len(tokens) > 0 && rng.Chance(0.12) {
+		w := foldWSP()
+		raw.WriteString("\r\n" + w)
+		unf.WriteString(w)
+	} else {
+		raw.WriteString(" ")
+	}
+	for i, t := range tokens {
 		if i > 0 {
 			if rng.Chance(0.3) {
-				w := []string{" ", "\t", "  ", " \t"}[rng.Pick(4)]
-				raw.WriteString(sep + "\r\n" + w)
-				unf.WriteString(sep + w)
+				w := foldWSP()
+				raw.WriteString("\r\n" + w)
+				unf.WriteString(w)
+				cross = append(cross, [2]string{tokens[i-1], t})
 			} else {
-				raw.WriteString(sep + " ")
-				unf.WriteString(sep + " ")
+				raw.WriteString(" ")
+				unf.WriteString(" ")
 			}
 		}
-		raw.WriteString(it)
-		unf.WriteString(it)
+		raw.WriteString(t)
+		unf.WriteString(t)
 	}
-	return raw.String(), unf.String()
+	return raw.String(), unf.String(), cross
+}
+
+// gluonMerge: what rfc822.mergeMultiline makes of a raw field body (it starts at the first non-blank after the colon and
+// ends with the CRLF of the field): every line trimmed, non-empty lines joined by one space.
+func gluonMerge(rawAfterColon string) string {
+	v := strings.TrimLeft(rawAfterColon, " \t") + "\r\n"
+	var sb strings.Builder
+	rem := v
+	for len(rem) != 0 {
+		i := strings.Index(rem, "\n")
+		if i < 0 {
+			sb.WriteString(strings.TrimSpace(rem))
+			break
+		}
+		sec := rem[:i]
+		sec = strings.TrimSuffix(sec, "\r")
+		rem = rem[i+1:]
+		if len(sec) != 0 {
+			sb.WriteString(strings.TrimSpace(sec))
+			if len(rem) != 0 {
+				sb.WriteString(" ")
+			}
+		}
+	}
+	return sb.String()
+}
+
+// addrTokens: the tokens of an address list (display-name words and the angle address, the comma stuck to it)
+func addrTokens(rng *common.Rng, n int) []string {
+	var toks []string
+	for i := 0; i < n; i++ {
+		a := strings.Fields(genAddr(rng))
+		if i < n-1 {
+			a[len(a)-1] += ","
+		}
+		toks = append(toks, a...)
+	}
+	return toks
 }
 
 func genAddr(rng *common.Rng) string {
@@ -188,62 +245,53 @@ type msgOpts struct {
 func genMessage(rng *common.Rng, tag string, base date, o msgOpts) *message {
 	m := &message{Tag: tag, Flags: map[string]bool{}}
 	var raw strings.Builder
-	add := func(name, rawv, unf string) {
-		if rawv == "" {
-			raw.WriteString(name + ":\r\n")
-		} else {
-			raw.WriteString(name + ": " + rawv + "\r\n")
-		}
-		m.Hdrs = append(m.Hdrs, hfield{name, unf})
+	type hf struct {
+		name, raw, unf string // raw: what follows "Name:" without the final CRLF
+		cross          [][2]string
 	}
-	type hf struct{ name, raw, unf string }
+	add := func(f hf) {
+		raw.WriteString(f.name + ":" + f.raw + "\r\n")
+		m.Hdrs = append(m.Hdrs, hfield{Name: f.name, Value: strings.TrimLeft(f.unf, " \t"), ValueG: gluonMerge(f.raw), Cross: f.cross})
+	}
+	plain := func(name, v string) hf { return hf{name: name, raw: " " + v, unf: v} }
+	laid := func(name string, tokens []string, afterColon bool) hf {
+		r, u, c := layout(rng, tokens, afterColon)
+		return hf{name, r, u, c}
+	}
 	var fields []hf
 	dv, sent := genDateHeader(rng, base, o.Garbage)
 	m.Sent, m.DateHdr = sent, dv
-	fields = append(fields, hf{[]string{"Date", "DATE", "date"}[rng.Pick(3)], dv, dv})
-	fr := genAddr(rng)
-	fields = append(fields, hf{[]string{"From", "FROM", "from"}[rng.Pick(3)], fr, fr})
-	{
-		n := rng.Range(1, 3)
-		var as []string
-		for i := 0; i < n; i++ {
-			as = append(as, genAddr(rng))
-		}
-		r, u := foldItems(rng, as, ",")
-		fields = append(fields, hf{[]string{"To", "TO", "to"}[rng.Pick(3)], r, u})
+	fields = append(fields, plain([]string{"Date", "DATE", "date"}[rng.Pick(3)], dv))
+	fields = append(fields, laid([]string{"From", "FROM", "from"}[rng.Pick(3)], addrTokens(rng, 1), true))
+	fields = append(fields, laid([]string{"To", "TO", "to"}[rng.Pick(3)], addrTokens(rng, rng.Range(1, 3)), true))
+	if rng.Chance(0.65) {
+		fields = append(fields, laid([]string{"Cc", "CC", "cc"}[rng.Pick(3)], addrTokens(rng, rng.Range(1, 3)), true))
 	}
-	if rng.Chance(0.5) {
-		a := genAddr(rng)
-		fields = append(fields, hf{[]string{"Cc", "CC", "cc"}[rng.Pick(3)], a, a})
-	}
-	if rng.Chance(0.3) {
-		a := genAddr(rng)
-		fields = append(fields, hf{[]string{"Bcc", "BCC"}[rng.Pick(2)], a, a})
+	if rng.Chance(0.45) {
+		fields = append(fields, laid([]string{"Bcc", "BCC"}[rng.Pick(2)], addrTokens(rng, rng.Range(1, 2)), true))
 	}
 	if rng.Chance(0.9) {
-		r, u := foldItems(rng, genItems(rng, rng.Range(1, 5)), "")
-		fields = append(fields, hf{[]string{"Subject", "SUBJECT", "subject", "SuBjEcT"}[rng.Pick(4)], r, u})
+		fields = append(fields, laid([]string{"Subject", "SUBJECT", "subject", "SuBjEcT"}[rng.Pick(4)], genItems(rng, rng.Range(1, 5)), true))
 	}
 	nx := rng.Range(0, 4)
 	for i := 0; i < nx; i++ {
 		name := xnames[rng.Pick(len(xnames))]
 		if rng.Chance(0.15) {
-			fields = append(fields, hf{name, "", ""})
+			fields = append(fields, hf{name: name})
 			continue
 		}
-		r, u := foldItems(rng, genItems(rng, rng.Range(1, 4)), "")
-		fields = append(fields, hf{name, r, u})
+		fields = append(fields, laid(name, genItems(rng, rng.Range(1, 4)), true))
 	}
-	fields = append(fields, hf{"X-Marker", tag, tag})
+	fields = append(fields, plain("X-Marker", tag))
 	boundary := "bnd" + tag
 	if o.Multipart {
 		v := `multipart/mixed; boundary="` + boundary + `"`
-		fields = append(fields, hf{"Content-Type", v, v}, hf{"MIME-Version", "1.0", "1.0"})
+		fields = append(fields, plain("Content-Type", v), plain("MIME-Version", "1.0"))
 	}
 	// shuffle everything but keep it deterministic
 	rng.Shuffle(len(fields), func(i, j int) { fields[i], fields[j] = fields[j], fields[i] })
 	for _, f := range fields {
-		add(f.name, f.raw, f.unf)
+		add(f)
 	}
 	var body strings.Builder
 	line := func() string {
@@ -289,7 +337,8 @@ func (m *message) adoptServerLiteral(srvLit []byte) error {
 		if i <= 0 || strings.ContainsAny(line[:i], " \t") {
 			return fmt.Errorf("unexpected text in front of the literal of %s: %q", m.Tag, extra)
 		}
-		hs = append(hs, hfield{line[:i], strings.TrimSpace(line[i+1:])})
+		v := strings.TrimSpace(line[i+1:])
+		hs = append(hs, hfield{Name: line[:i], Value: v, ValueG: v})
 	}
 	m.Lit = append([]byte{}, srvLit...)
 	m.Hdrs = append(hs, m.Hdrs0...)
@@ -322,6 +371,27 @@ func (m *message) first(name string) string {
 		}
 	}
 	return ""
+}
+
+func (m *message) firstField(name string) *hfield {
+	for i := range m.Hdrs {
+		if strings.EqualFold(m.Hdrs[i].Name, name) {
+			return &m.Hdrs[i]
+		}
+	}
+	return nil
+}
+
+// readingsAgree: the two readings of "unfolded" give the same answer for this needle on every header field of the view
+func (v *view) readingsAgree(needle string) bool {
+	for _, m := range v.Msgs {
+		for _, h := range m.Hdrs {
+			if ciContains(h.Value, needle) != ciContains(h.ValueG, needle) {
+				return false
+			}
+		}
+	}
+	return true
 }
 
 func numVal(w wnum, star int) *big.Int {
